@@ -39,4 +39,6 @@ def streams(tier, seed):
            {"name": "expr-mutated", "stream": "expr-mutated", "count": 2500 if q else 100000, "judge": judge}]
     for p in ("dag", "banks", "regfile", "memory", "status"):
         out.append({"name": "prog-" + p, "stream": "prog", "count": 120 if q else 4000, "extra": (p,), "judge": judge})
+    # programs with one planted fault: what "passes checking" means is part of the property
+    out.append({"name": "prog-fault", "stream": "prog-fault", "count": 400 if q else 15000, "judge": judge})
     return out
